@@ -210,13 +210,13 @@ fn case(g: &mut Gen, ctx: &mut Ctx) -> CaseResult {
             vec![0x7a]
         };
         let outcome: Result<Vec<u8>, String> = if mac0 {
-            let mut b = CoseMac0Builder::new().protected(h.clone());
+            let mut b = crate::builder_with_headers!(CoseMac0Builder, g, h);
             if has_payload {
                 b = b.payload(payload.clone());
             }
             crate::run::catch(|| if fallible { b.try_create_tag(&aad, |d| -> Result<Vec<u8>, ()> { Ok(create(d)) }).map(|b| b.build().tag).unwrap_or_default() } else { b.create_tag(&aad, create).build().tag })
         } else {
-            let mut b = CoseMacBuilder::new().protected(h.clone());
+            let mut b = crate::builder_with_headers!(CoseMacBuilder, g, h);
             if has_payload {
                 b = b.payload(payload.clone());
             }
